@@ -236,7 +236,8 @@ func (l *leader) checkConfigAction(t *task, config Config, status *replicationSt
 }
 
 func (l *leader) canChangeConfig() bool {
-	return l.configs.IsCommitted() && !l.transfer.inProgress()
+	// see https://groups.google.com/forum/#!msg/raft-dev/t4xj6dJTP6E/d2D9LrWRza8J
+	return l.configs.IsCommitted() && l.commitIndex >= l.startIndex && !l.transfer.inProgress()
 }
 
 func (l *leader) onWaitForStableConfig(t waitForStableConfig) {
